@@ -33,6 +33,7 @@ RULE = ('case = two random expression texts (depth <=4, arbitrary spacing, redun
         'object sharing no token or store with an operand, and every operand of an earlier application keeps its snapshot through all '
         'later steps of the chain (also in-place ones applied to the result). Numeric operands include 0 and 0.00. Non-trivial = '
         'the expression has >=1 operator; distinct = hash(expression texts, operator chain). Zero divisors are not generated.')
+RULE += (' Also (rounds 8-12): operands that are instances of subclasses of int / Decimal; whole-value assignments (int, Decimal); a fifth of the cases run under another decimal context (precision 6..60, four rounding modes) - the reference evaluator follows the active context.')
 ASSUMPTIONS = ['reference evaluator: decimal default context, left-associative, unary binds tighter than binary (DESIGN.md A.5)']
 
 _TOK = re.compile(r'[0-9][0-9,]*(?:\.[0-9]*)?|[-+*/()]')
